@@ -2,7 +2,7 @@ SPECIFICATION NSpec
 CONSTANTS SmallIds = {1} Widths = {} MaxTok = 1
   Texts <- CTexts HRs <- CHRsQ
   MaxIn = 2 Kinds = {"h", "s", "l", "o"} MsgIds = {1} NextRVs <- CRVs Whats <- CWhats
-  MaxQ = 2 Hows = {"shut"} MaxSent = 2 Ops <- OpsAll
+  MaxQ = 2 Hows = {"shut"} MaxSent = 2 Ops <- OpsT
 CONSTRAINT Bound
 VIEW View
 INVARIANTS TypeOK Refines OnceOnly GoneNotified NTypeOK ReleasedOnce ListedLive InOrderInv
